@@ -175,6 +175,13 @@ def matrix(n_total, focus=None, timeout=5.0):
              'n_iterations': 3, 'draws': 'seeded', 'hp': 'default', 'store_best_only': False, 'hook': 'observe',
              'functions': 'arith', 'depth': (1, 3), 'n_terminals': 2}
         out.append(make(o, s, c, 9000 + i, timeout))
+    # extended-precision objectives (np.longdouble values that no double equals): one per cell, always
+    for k, (o, s) in enumerate(cells):
+        c = {'objective': ['sphere', 'shifted', 'linear', 'negative'][k % 4], 'ret': 'longdouble', 'box': ['sym10', 'asym'][k % 2], 'agents': [5, 'min', 12][k % 3],
+             'n_variables': [2, 1, 3][k % 3], 'n_dimensions': [1, 2][k % 2], 'n_iterations': [5, 2, 12][k % 3], 'draws': 'seeded',
+             'hp': 'default', 'store_best_only': bool(k % 5 == 4), 'hook': 'observe', 'functions': ['arith', 'all'][k % 2], 'depth': (1, 3), 'n_terminals': 2}
+        cfg = make(o, s, c, 9700 + k, timeout)
+        out.append(cfg)
     return out
 
 
@@ -216,7 +223,7 @@ def shrink_candidates(cfg):
         alt(store_best_only=False)
     if cfg.get('hyperparams') and not cfg.get('hp_edge') and cfg['optimizer'] != 'WCA':
         alt(hyperparams={}, hp_mode='default')
-    if cfg.get('ret') == 'npscalar':
+    if cfg.get('ret') in ('npscalar', 'longdouble'):
         alt(ret='pyfloat')
     if cfg.get('hp_numpy'):
         alt(hp_numpy=False)
